@@ -166,6 +166,13 @@ def oracle_c13(case, lo):
     return fails
 
 
+def cmp_size(lib_toks_, model_toks):
+    """C19: exact, or within the [max, min] band the model gives when a size depends on which columns the transcript opens"""
+    if len(model_toks) == 2 and len(lib_toks_) == 1 and model_toks[0].isdigit():
+        return int(model_toks[1]) <= int(lib_toks_[0]) <= int(model_toks[0])
+    return lib_toks_ == model_toks
+
+
 def cmp_c13_t(lib_toks_, model_toks):
     """calculate_t: accept the exact minimum for |F| or for 2^bits (see DESIGN.md, C13)"""
     return len(lib_toks_) == 1 and lib_toks_[0] in model_toks
@@ -388,6 +395,76 @@ def oracle_c14(case, lo):
     return fails
 
 
+def oracle_c19(case, lo):
+    """sizes on library outputs only: serialized_size == bytes written; size laws per scheme as functions of N"""
+    import math
+    fails = []
+    if case.kind != "pc" or "c19" not in case.fields:
+        return fails
+    sch = case.fields["scheme"][0]
+    n = int(case.fields["n"][0])
+    for name, v in lo.items():
+        if name.startswith("size."):
+            b = lo.get("bytes." + name[5:])
+            if b and b[1] != v[1]:
+                fails.append("%s: serialized_size reports %s but %s bytes are written (%s)" % (sch, v[1][0], b[1][0], name[5:]))
+    pair = sch in ("marlin", "sonic", "pst13")
+    g1c = 48 if pair else 32
+    for name, v in lo.items():
+        parts = name.split(".")
+        if parts[0] != "size" or parts[-1] != "c":
+            continue
+        size = int(v[1][0])
+        if parts[1] == "comm":
+            if sch in ("marlin", "sonic", "ipa", "pst13") and size > 2 * g1c + 1:
+                fails.append("%s commitment of %d bytes: not constant-size (at most two group elements and a tag)" % (sch, size))
+            if sch in ("ligero_uni", "ligero_ml", "brakedown_ml") and size > 24 + 8 + 64:
+                fails.append("%s commitment of %d bytes: more than the three counters and a digest" % (sch, size))
+            if sch == "hyrax":
+                nv = int(case.fields["num_vars"][0])
+                if size != 8 + (1 << (nv // 2)) * 32:
+                    fails.append("hyrax commitment of %d bytes for %d variables, expected 2^(n/2) = %d row commitments" % (size, nv, 1 << (nv // 2)))
+        elif parts[1] == "proof":
+            t = int(parts[2])
+            sel = case.meta["ops"][t]["sel"]
+            if sch in ("marlin", "sonic") and size > g1c + 1 + 32:
+                fails.append("%s proof of %d bytes for %d polynomials: not one group element and an optional scalar" % (sch, size, len(sel)))
+            if sch == "pst13":
+                nv = int(case.fields["num_vars"][0])
+                if size not in (8 + nv * 48 + 1, 8 + nv * 48 + 1 + 32):
+                    fails.append("pst13 proof of %d bytes for %d variables: not one group element per variable" % (size, nv))
+            if sch == "ipa":
+                s_ = int(case.fields["supported_degree"][0])
+                r = max(0, (s_).bit_length()) if (s_ + 1) & s_ else (s_ + 1).bit_length() - 1
+                base = 2 * (8 + r * 32) + 32 + 32 + 2
+                if size not in (base, base + 64):
+                    fails.append("ipa proof of %d bytes for supported degree %d: not two group elements per halving round (%d rounds)" % (size, s_, r))
+            if sch == "hyrax":
+                nv = int(case.fields["num_vars"][0])
+                one = 3 * 32 + 8 + (1 << (nv // 2)) * 32 + 3 * 32
+                if size != 8 + len(sel) * one:
+                    fails.append("hyrax proof of %d bytes for %d polynomials in %d variables: not 2^(n/2)-size" % (size, len(sel), nv))
+    # code-based schemes: the chosen matrix is within 4x of the best power-of-two row count (same size formula, uncapped shapes)
+    if sch in ("ligero_uni", "ligero_ml", "brakedown_ml"):
+        for name, v in lo.items():
+            if not name.startswith("shape.proof."):
+                continue
+            toks = [int(x) for x in v[1]]
+            cnt, rest = toks[0], toks[1:]
+            for k in range(cnt):
+                (tt, depth, lsb, idb, ncols, ncol2, nrows, wfp, wfl, same) = rest[10 * k:10 * k + 10]
+                if not same or ncol2 != tt:
+                    fails.append("%s proof: ragged columns/paths (%d paths, %d columns)" % (sch, tt, ncol2))
+                N = nrows * ncols
+                shipped = ncols + tt * nrows + (wfl if wfp else 0)          # field elements in the proof
+                if tt < 4 * ncols and N >= 64:
+                    best = min(max(1, -(-N // r)) * (2 if wfp else 1) + tt * r for r in [1 << e for e in range(0, 21)])
+                    if shipped > 4 * best:
+                        fails.append("%s proof ships %d field elements for a %d-coefficient polynomial (matrix %d x %d, %d openings); "
+                                     "the best power-of-two row count needs %d: beyond the 4x allowance" % (sch, shipped, N, nrows, ncols, tt, best))
+    return fails
+
+
 def lib_toks(lo, name):
     v = lo.get(name)
     return v[1] if v else None
@@ -512,6 +589,14 @@ PROPS = {
         "flows": [(gen_c09.gen, "c09", 90, 900), (gen_pc.gen, "c17domain", 30, 300), (gen_c15.gen_setup, "c09", 16, 200)],
         "oracles": [oracle_c09, oracle_c15, pc_honest, pc_domain],
         "title": "Setup and trim",
+    },
+    "C19": {
+        "props_file": "props/C19.v",
+        "flows": [(gen_pc.gen, "c19", 48, 480)],
+        "oracles": [pc_honest, oracle_c19],
+        "filter": _names("size", "bytes", "shape"),
+        "comparators": {"size": cmp_size, "bytes": cmp_size},
+        "title": "Succinctness",
     },
     "C14": {
         "props_file": "props/C14.v",
